@@ -50,7 +50,7 @@ Definition apply_ins_op (o : cmd_op) (i : insert) : insert :=
     | ISetIsOut b => mkins eid cancel b prog imm has pts comps hasdur dur auto up an ae
     | ISetIsEventCanceled b => mkins eid b out prog imm has pts comps hasdur dur auto up an ae
     | ISetHasDuration b => mkins eid cancel out prog imm has pts comps b dur auto up an ae
-    | ISetDuration v => mkins eid cancel out prog imm has pts comps hasdur v auto up an ae
+    | ISetDuration v => mkins eid cancel out prog imm has pts comps hasdur (v mod 8589934592) auto up an ae   (* 0b05886 *)
     | ISetIsAutoReturn b => mkins eid cancel out prog imm has pts comps hasdur dur b up an ae
     | ISetUniqueProgramId v => mkins eid cancel out prog imm has pts comps hasdur dur auto v an ae
     | ISetAvailNum v => mkins eid cancel out prog imm has pts comps hasdur dur auto up v ae
@@ -80,6 +80,13 @@ Definition create_cmd (k : N) : command :=
   else if k =? 2 then CInsert (mkins 0 false false true false false 0 [] false 0 false 0 0 0)
   else CNull.
 
+Inductive co_op := CoSetTag (v : N) | CoSetOffset (v : N).
+Definition apply_co_op (o : co_op) (c : comp_offset) : comp_offset :=
+  match o with
+  | CoSetTag v => mkco v (co_off c)
+  | CoSetOffset v => mkco (co_tag c) (v mod 8589934592)
+  end.
+
 Inductive desc_op :=
 | DSetEventID (v : N) | DSetTypeID (v : N) | DSetIsEventCanceled (b : bool) | DSetHasDuration (b : bool)
 | DSetDuration (v : N) | DSetUPIDType (v : N) | DSetUPID (b : bytes)
@@ -89,10 +96,11 @@ Inductive desc_op :=
 | DSetIsWebDeliveryAllowed (b : bool) | DSetIsArchiveAllowed (b : bool) | DSetHasNoRegionalBlackout (b : bool)
 | DSetDeviceRestrictions (v : N)
 | DSetMID (l : list (N * bytes))          (* UPIDs made by CreateUPID + SetUPIDType + SetUPID *)
-| DSetComponents (l : list (N * N))       (* made by CreateComponentOffset + SetComponentTag + SetPTSOffset *)
+| DSetComponents (l : list (N * N))       (* made by CreateComponentOffset + SetComponentTag + SetPTSOffset (33 bits kept) *)
 | DSetHasSubSegments (b : bool)
 | DMidSetUPID (j : nat) (b : bytes)       (* MID()[j].SetUPID(b): writes through the pointer into d.mid[j], length included *)
-| DMidSetUPIDType (j : nat) (v : N).      (* MID()[j].SetUPIDType(v) *)
+| DMidSetUPIDType (j : nat) (v : N)       (* MID()[j].SetUPIDType(v) *)
+| DComp (j : nat) (o : co_op).            (* Components()[j].SetComponentTag / SetPTSOffset: pointers into d.components *)
 
 Definition apply_desc_op (o : desc_op) (d : segdesc) : segdesc :=
   match d with
@@ -121,14 +129,14 @@ Definition apply_desc_op (o : desc_op) (d : segdesc) : segdesc :=
     | DSetIsWebDeliveryAllowed b => mkseg ty eid hasdur dur uty u m sn se ssn sse owner cancel dnr hassub prog b nobl arch dev comps
     | DSetIsArchiveAllowed b => mkseg ty eid hasdur dur uty u m sn se ssn sse owner cancel dnr hassub prog web nobl b dev comps
     | DSetHasNoRegionalBlackout b => mkseg ty eid hasdur dur uty u m sn se ssn sse owner cancel dnr hassub prog web b arch dev comps
-    | DSetDeviceRestrictions v => mkseg ty eid hasdur dur uty u m sn se ssn sse owner cancel dnr hassub prog web nobl arch v comps
+    | DSetDeviceRestrictions v => mkseg ty eid hasdur dur uty u m sn se ssn sse owner cancel dnr hassub prog web nobl arch (v mod 4) comps   (* 0b05886 *)
     | DSetMID l =>
       if negb (uty =? SegUPIDMID) then d
       else mkseg ty eid hasdur dur uty u (map (fun e => mkupid (fst e) (len (snd e)) (snd e)) l)
                  sn se ssn sse owner cancel dnr hassub prog web nobl arch dev comps
     | DSetComponents l =>
       mkseg ty eid hasdur dur uty u m sn se ssn sse owner cancel dnr hassub prog web nobl arch dev
-            (map (fun e => mkco (fst e) (snd e)) l)
+            (map (fun e => mkco (fst e) (snd e mod 8589934592)) l)   (* SetPTSOffset truncates (0b05886) *)
     | DSetHasSubSegments b => mkseg ty eid hasdur dur uty u m sn se ssn sse owner cancel dnr b prog web nobl arch dev comps
     | DMidSetUPID j b =>
       if negb (uty =? SegUPIDMID) then d     (* MID() returns nil: nothing to call *)
@@ -138,6 +146,9 @@ Definition apply_desc_op (o : desc_op) (d : segdesc) : segdesc :=
       if negb (uty =? SegUPIDMID) then d
       else mkseg ty eid hasdur dur uty u (upd_nth m j (fun e => mkupid v (u_len e) (u_upid e)))
                  sn se ssn sse owner cancel dnr hassub prog web nobl arch dev comps
+    | DComp j o =>
+      mkseg ty eid hasdur dur uty u m sn se ssn sse owner cancel dnr hassub prog web nobl arch dev
+            (upd_nth comps j (apply_co_op o))
     end
   end.
 
@@ -255,7 +266,7 @@ Definition build_desc (owner : N) (ops : list desc_op) : segdesc :=
 Definition apply_sig_op (s : scte) (o : sig_op) : scte :=
   match o with
   | SSetTier v => with_tier s (v mod 4096)
-  | SSetAdjustPTS v => with_pts s v
+  | SSetAdjustPTS v => with_pts s (v mod 8589934592)   (* 0b05886 *)
   | SSetPTS v => with_cmd (with_pts s v) (s_cmd_type s) (apply_cmd_op (KSetPTS (v mod 8589934592)) (s_cmd s))
   | SSetHasPTS b => with_cmd s (s_cmd_type s) (apply_cmd_op (KSetHasPTS b) (s_cmd s))
   | SSetAlignmentStuffing v => with_stuffing s v
